@@ -28,6 +28,10 @@ def gen(rng, tier):
         cs.append(Case("verify %s %s %s" % (hx(pk), hx(msg), hx(sigp)), cls="verify/cross-mode", expect="err"))
         cs.append(Case("verify_ph %s %s %s" % (hx(pk), hx(sig), hx(msg)), cls="verify_ph/cross-mode", expect="err"))
         cs.append(Case("verify %s %s %s" % (hx(pk), hx(refs.sha512(msg)), hx(sigp)), cls="verify/cross-mode-prehash", expect="err"))
+        # … and the mirror image: a PURE signature over SHA-512(m) presented to the multi-part (pre-hashed) verifier of m
+        sig_over_digest = refs.ed_sign(seed, refs.sha512(msg))
+        cs.append(Case("verify_ph %s %s %s" % (hx(pk), hx(sig_over_digest), hx(msg)), cls="verify_ph/cross-mode-pure-over-digest", expect="err",
+                       meta={"why": "a pure-mode signature over SHA-512(m) was accepted by the pre-hashed verifier of m"}))
     # negative family on a set of base cases
     for bi in range(4 if tier == "quick" else 24):
         seed, pk, sk = keypair(rng)
@@ -112,6 +116,20 @@ def gen(rng, tier):
                 else:
                     cs.append(Case("verify_ph %s %s %s" % (hx(pkb), hx(sig), hx(msg)), cls="verify_ph/smallorder-pk-forgery", expect="err"))
     # RFC 8032 vectors
+    # messages longer than 1 MiB handed over in ONE call (a hashing front end that splits large inputs must not lose the tail), and
+    # in two pieces; bit flips in the last bytes must be rejected
+    for n in ((1 << 20) + 5,) if tier == "quick" else ((1 << 20) - 1, 1 << 20, (1 << 20) + 1, (1 << 20) + 5, (2 << 20) + 3):
+        seed, pk, sk = keypair(rng)
+        msg = rbytes(rng, n)
+        sig = refs.ed_sign(seed, msg)
+        cs.append(Case("sign %s %s" % (hx(sk), hx(msg)), cls="sign/large", expect="ok " + hx(sig), meta={"no_spec": True}))
+        cs.append(Case("verify %s %s %s" % (hx(pk), hx(msg), hx(sig)), cls="verify/large-good", expect="ok", meta={"no_spec": True}))
+        t = bytearray(msg); t[-1] ^= 1
+        cs.append(Case("verify %s %s %s" % (hx(pk), hx(bytes(t)), hx(sig)), cls="verify/large-flip-tail", expect="err", meta={"no_spec": True}))
+        sigp = refs.ed_sign(seed, msg, ph=True)
+        cs.append(Case("sign_ph %s %s" % (hx(sk), hx(msg)), cls="sign/ph-large", expect="ok " + hx(sigp), meta={"no_spec": True}))
+        cs.append(Case("verify_ph %s %s %s" % (hx(pk), hx(sigp), hx(msg)), cls="verify_ph/large-good", expect="ok", meta={"no_spec": True}))
+
     seed = bytes.fromhex("9d61b19deffd5a60ba844af492ec2cc44449c5697b326919703bac031cae7f60")
     pk = refs.ed_public(seed)
     cs.append(Case("sign %s -" % hx(seed + pk), cls="sign/rfc8032", expect="ok e5564300c360ac729086e2cc806e828a84877f1eb8e5d974d873e065224901555fb8821590a33bacc61e39701cf9b46bd25bf5f0595bbe24655141438e7a100b"))
